@@ -362,6 +362,8 @@ def _none_pos(e):
     """A position annotated None: the documentation does not say whether it is read at all."""
     while e[0] in ("annotated", "final", "newtype"):
         e = e[1]
+    if e[0] in ("opt", "optpipe", "union", "pep604"):
+        return all(_none_pos(m) for m in e[1:])      # Optional[None] is NoneType itself
     return e == ("leaf", "none")
 
 
